@@ -71,6 +71,11 @@ pub struct Case {
     pub eof_cut: usize,
     /// source slots whose branch lands in the delay slot of their (MIPS branch) target
     pub into_delay: Vec<usize>,
+    /// x86: (source slot, delta): the branch lands `delta` bytes *inside* its target slot
+    /// (a `mov r, imm32` whose immediate bytes are one-byte instructions), i.e. the two
+    /// decodings overlap and rejoin at the next slot
+    #[serde(default)]
+    pub mid_targets: Vec<(usize, u8)>,
     /// "sim-default" | "sim-own" | "backing" | "layered"
     pub mem_impl: String,
     /// layered: (slot, store width in bytes) re-stored into the paged layer
@@ -118,6 +123,22 @@ fn target_of(s: &Slot) -> Option<usize> {
     }
 }
 
+/// how many bytes into its target slot does the branch of slot `i` land? (x86 only, and
+/// only into a raw 5-byte `mov r, imm32` carrier)
+fn mid_delta(case: &Case, slots: &[Slot], i: usize) -> u8 {
+    if !case.arch.is_x86() {
+        return 0;
+    }
+    let t = match target_of(&slots[i]) {
+        Some(t) => t.min(slots.len() - 1),
+        None => return 0,
+    };
+    match (&slots[t], case.mid_targets.iter().find(|m| m.0 == i)) {
+        (Slot::Raw(h), Some(&(_, d))) if h.len() == 10 && (1..=4).contains(&d) => d,
+        _ => 0,
+    }
+}
+
 pub fn layout(case: &Case) -> Layout {
     let arch = case.arch;
     let mut slots = case.slots.clone();
@@ -140,7 +161,7 @@ pub fn layout(case: &Case) -> Layout {
         let mut changed = false;
         if arch.is_x86() {
             for i in 0..n {
-                let t = target_of(&slots[i]).map(|t| addrs[t.min(n - 1)]);
+                let t = target_of(&slots[i]).map(|t| addrs[t.min(n - 1)] + mid_delta(case, &slots, i) as u64);
                 match &mut slots[i] {
                     Slot::Cond { cc, short, .. } if *short || *cc % 17 == 16 => {
                         if !asm::x86_short_fits(addrs[i], t.unwrap()) {
@@ -172,7 +193,7 @@ pub fn layout(case: &Case) -> Layout {
                 if arch.is_mips() && case.into_delay.contains(&i) && is_branchy(&slots[t]) {
                     addrs[t] + 4
                 } else {
-                    addrs[t]
+                    addrs[t] + mid_delta(case, &slots, i) as u64
                 }
             }
             None => addrs[i],
@@ -250,8 +271,14 @@ fn reachable(case: &Case, l: &Layout) -> BTreeSet<u64> {
         let i = match index_of.get(&a) {
             Some(i) => *i,
             None => {
-                if let Some(i) = index_of.get(&(a.wrapping_sub(4))) {
-                    work.push(l.addrs[*i] + l.lens[*i] as u64);
+                if case.arch.is_mips() {
+                    if let Some(i) = index_of.get(&(a.wrapping_sub(4))) {
+                        work.push(l.addrs[*i] + l.lens[*i] as u64);
+                    }
+                } else if let Some(b) = l.units.get(&a) {
+                    // a unit decoded inside another slot (x86 mid-instruction target):
+                    // one-byte straight-line instructions
+                    work.push(a + b.len() as u64);
                 }
                 continue;
             }
@@ -262,7 +289,7 @@ fn reachable(case: &Case, l: &Layout) -> BTreeSet<u64> {
             if case.arch.is_mips() && case.into_delay.contains(&i) && is_branchy(&l.slots[t]) {
                 l.addrs[t] + 4
             } else {
-                l.addrs[t]
+                l.addrs[t] + mid_delta(case, &l.slots, i) as u64
             }
         };
         match &l.slots[i] {
@@ -690,6 +717,9 @@ fn sig(case: &Case, extra: &str) -> String {
         if !case.into_delay.is_empty() {
             f.push("target-is-delay-slot");
         }
+        if !case.mid_targets.is_empty() && case.arch.is_x86() {
+            f.push("mid-instruction-target");
+        }
         if f.is_empty() {
             "none".into()
         } else {
@@ -716,8 +746,52 @@ pub fn execute(case: &Case) -> Outcome {
     if case.slots.is_empty() {
         return done(None, c, states, log, 0, false);
     }
-    let l = layout(case);
+    let mut l = layout(case);
     c.inc(&format!("translator.{}", arch.name()));
+    // units of the overlapping decoding reached through a mid-instruction target: decoded
+    // on the fly, one instruction at a time, with the lifter itself as the decoder
+    if arch.is_x86() && !case.mid_targets.is_empty() {
+        let t = arch.translator();
+        let o = Options::default();
+        for i in 0..l.slots.len() {
+            let d = mid_delta(case, &l.slots, i);
+            if d == 0 {
+                continue;
+            }
+            let tslot = target_of(&l.slots[i]).unwrap().min(l.slots.len() - 1);
+            let mut pc = l.addrs[tslot] + d as u64;
+            c.inc("fault.mid-instruction-target");
+            for _ in 0..8 {
+                if l.units.contains_key(&pc) || !mapped(&l, pc) {
+                    break;
+                }
+                let mut slice = Vec::new();
+                while slice.len() < 15 && mapped(&l, pc + slice.len() as u64) {
+                    let a = pc + slice.len() as u64;
+                    let (s0, d0) = l.islands.iter().find(|(s0, d0)| a >= *s0 && a - *s0 < d0.len() as u64).unwrap();
+                    slice.push(d0[(a - *s0) as usize]);
+                }
+                let len = match catch(|| t.translate_block(&slice, pc, &o)) {
+                    Ok(Ok(r)) => {
+                        let mut starts: Vec<u64> = r.instructions().iter().map(|x| x.0).collect();
+                        starts.sort();
+                        starts.dedup();
+                        if starts.len() >= 2 {
+                            (starts[1] - pc) as usize
+                        } else {
+                            r.length()
+                        }
+                    }
+                    _ => 0,
+                };
+                if len == 0 || len > slice.len() {
+                    break;
+                }
+                l.units.insert(pc, slice[..len].to_vec());
+                pc += len as u64;
+            }
+        }
+    }
     c.inc(&format!("memory.{}", case.mem_impl));
     if case.fault_free {
         c.inc("runs.fault-free");
@@ -1267,6 +1341,7 @@ pub fn generate(run_seed: u64, index: u64) -> Case {
         gaps: Vec::new(),
         eof_cut: 0,
         into_delay: Vec::new(),
+        mid_targets: Vec::new(),
         mem_impl: rng.pick(&["sim-own", "sim-default", "backing", "layered"]).to_string(),
         restore: Vec::new(),
         perms_on: rng.pick(&["backing", "paged", "both"]).to_string(),
@@ -1320,6 +1395,28 @@ pub fn generate(run_seed: u64, index: u64) -> Case {
                 }
             }
         }
+        if arch.is_x86() && rng.chance(1, 4) {
+            // carriers: `mov r, imm32` whose immediate is four one-byte instructions; branches
+            // aimed at a carrier land inside it
+            let singles: Vec<u8> = if arch == Arch::X86 {
+                vec![0x90, 0x40, 0x41, 0x42, 0x48, 0x49, 0x4a, 0x91, 0x92, 0xf8, 0xf9, 0xfc, 0x98, 0x99, 0x50, 0x58]
+            } else {
+                vec![0x90, 0x91, 0x92, 0xf8, 0xf9, 0xfc, 0x98, 0x99, 0x50, 0x58]
+            };
+            for i in 0..n {
+                if let Some(t) = target_of(&case.slots[i]) {
+                    let t = t.min(n - 1);
+                    if t + 1 < n && matches!(case.slots[t], Slot::Op { .. } | Slot::Pad(_) | Slot::Raw(_)) && rng.chance(1, 2) {
+                        let mut b = vec![0xb8 + [0u8, 1, 2, 6, 7][rng.usize_below(5)]];
+                        for _ in 0..4 {
+                            b.push(*rng.pick(&singles));
+                        }
+                        case.slots[t] = Slot::Raw(asm::hex(&b));
+                        case.mid_targets.push((i, rng.range(1, 4) as u8));
+                    }
+                }
+            }
+        }
     }
     case
 }
@@ -1359,6 +1456,9 @@ pub fn minimise(case: &Case, class: &str) -> Case {
     let mut c = best.clone();
     c.into_delay.clear();
     attempt!(c);
+    let mut c = best.clone();
+    c.mid_targets.clear();
+    attempt!(c);
     if best.mem_impl != "sim-own" {
         let mut c = best.clone();
         c.mem_impl = "sim-own".into();
@@ -1393,6 +1493,7 @@ pub fn minimise(case: &Case, class: &str) -> Case {
         c.gaps = c.gaps.iter().filter(|g| g.0 != i).map(|g| if g.0 > i { (g.0 - 1, g.1) } else { *g }).collect();
         c.manual_edges = c.manual_edges.iter().map(|&(h, t, g)| (if h > i { h - 1 } else { h }, if t > i { t - 1 } else { t }, g)).collect();
         c.into_delay = c.into_delay.iter().filter(|x| **x != i).map(|x| if *x > i { x - 1 } else { *x }).collect();
+        c.mid_targets = c.mid_targets.iter().filter(|x| x.0 != i).map(|x| if x.0 > i { (x.0 - 1, x.1) } else { *x }).collect();
         c.restore = c.restore.iter().map(|&(s, w)| (if s > i { s - 1 } else { s }, w)).collect();
         if !attempt!(c) {
             i += 1;
